@@ -543,3 +543,43 @@ Section Proxy.
     snd (fst (proxy_eval (insert t sg []) sg now)) = true.
   Proof. intros. unfold proxy_eval. rewrite find_after_insert. reflexivity. Qed.
 End Proxy.
+
+(* ------------------------------------------------------------ clears_fast
+   (the model driver's evaluation of N real clear() calls) is N.iter clear *)
+Lemma clears_inv : forall n t, Inv t -> Inv (clears n t).
+Proof.
+  intros n t HI. unfold clears. induction n as [|n IH] using N.peano_ind; [exact HI|].
+  rewrite N.iter_succ. apply clear_inv. exact IH.
+Qed.
+
+Lemma clears_add : forall a b t, clears (a + b) t = clears a (clears b t).
+Proof. intros. unfold clears. apply N.iter_add. Qed.
+
+Lemma table_eta : forall t, mktable (tbits t) (slots t) (seal t) = t.
+Proof. intros [b s z]. reflexivity. Qed.
+
+Lemma clears_fast_ok : forall fuel n t, Inv t ->
+  (seal t - 1) + n < N.of_nat fuel * (M32 - 1) ->
+  clears_fast fuel n t = clears n t.
+Proof.
+  induction fuel as [|fuel IH]; intros n t HI Hb.
+  - cbn in Hb. lia.
+  - cbn [clears_fast]. destruct (N.eqb_spec n 0) as [En|En]; [subst; reflexivity|].
+    pose proof HI as (Hs & _ & _).
+    destruct (N.ltb_spec (seal t + n) M32) as [L|G].
+    + symmetry. apply clears_closed; lia.
+    + set (n1 := M32 - 1 - seal t).
+      assert (E1 : clears n1 t = mktable (tbits t) (slots t) (M32 - 1)).
+      { destruct (N.eq_dec n1 0) as [Z|NZ].
+        - rewrite Z. change (clears 0 t) with t.
+          assert (Es : M32 - 1 = seal t) by lia. rewrite Es. symmetry. apply table_eta.
+        - rewrite clears_closed by lia. f_equal. lia. }
+      replace n with ((n - n1 - 1) + (1 + n1)) at 2 by lia.
+      rewrite clears_add, clears_add, E1.
+      change (clears 1 ?x) with (clear x).
+      assert (HI1 : Inv (mktable (tbits t) (slots t) (M32 - 1))) by (rewrite <- E1; apply clears_inv; exact HI).
+      apply IH; [apply clear_inv; exact HI1|].
+      unfold clear. cbn [seal]. replace ((M32 - 1 + 1) mod M32) with 0
+        by (replace (M32 - 1 + 1) with M32 by (unfold M32; lia); rewrite N.mod_same by (unfold M32; lia); reflexivity).
+      cbn [N.eqb seal]. rewrite Nnat.Nat2N.inj_succ in Hb. unfold M32 in *. lia.
+Qed.
